@@ -40,7 +40,7 @@ def contract(cell, ir):
         shape = "+".join(k for k in ("typ", "doc", "default") if k in ((ir.get("returns") or {}).get("return_type") or {})) or "none"
         return [(("roundtrip", fmt, style, "default_doc=%s" % edd, opts, field, "ret", shape), "%s; emitted source:\n%s" % (d, text[-400:]), None)]
     return [(("roundtrip", fmt, style, "default_doc=%s" % edd, opts, field, M.typ_class(src.get("typ")) if src else "-", M.default_class(src) if src else "-"),
-             "%s; emitted source:\n%s" % (d, text[-400:]), None)]
+             "%s; emitted source:\n%s" % (d, text[-400:]), {"param_doc": src.get("doc")} if src else None)]
 
 
 def cells_for(tier):
@@ -55,6 +55,22 @@ def cells_for(tier):
     return out
 
 
+def optional_prose_replay():
+    """The block contract on the Optional-from-prose step, on the real emitters / parsers: a description that does not START with
+    the capitalised word leaves the type alone"""
+    for doc in ("optional {name}, in seconds", "OPTIONAL {name}", "(optional) {name}", "the {name}, Optional", "the Optional {name}", "optionally the {name}", "Option {name}", " Optional {name}"):
+        for typ_, dflt in (("float", 1.5), ("str", domain.ABSENT), ("List[str]", domain.ABSENT)):
+            for cell in (("class", "rest", False, True, False), ("function", "google", False, True, False), ("pydantic", "rest", False, True, False)):
+                ir = domain.make_ir(((typ_, dflt, doc),))
+                try:
+                    r = [x for x in contract(cell, ir) if "typ" in x[0]]
+                except Exception:
+                    r = []
+                if r:
+                    return {"cell": list(cell), "ir": json.loads(json.dumps(ir, default=str)), "what": r[0][1][:300]}
+    return None
+
+
 def main(tier, write_baseline=False):
     run = Run("C02", tier, "other", checker_cmd=common.checker_cmd("C02", tier))
     M.RAISE_CTX.update(prop="C02", write=bool(write_baseline))
@@ -65,7 +81,10 @@ def main(tier, write_baseline=False):
     compare_baseline(run, set(run.obligations))
     fails = {}
     if not os.environ.get("VERIF_NO_BOUNDED"):
-        pool = domain.param_pool(TYPES, docs=["the {name}", "The {name} of it.", "first line\nsecond line of the {name}", "ratio: a to b", "Gr\u00f6\u00dfe des {name} (Ma\u00df)"])
+        pool = domain.param_pool(TYPES, docs=["the {name}", "The {name} of it.", "first line\nsecond line of the {name}", "ratio: a to b", "Gr\u00f6\u00dfe des {name} (Ma\u00df)",
+                                                  # prose about optionality: only a description that STARTS with the capitalised word is
+                                                  # (by a documented heuristic, a known finding) allowed to change the type
+                                                  "optional {name}, in seconds", "the {name}, optional", "Optional {name} of it"])
         irs = list(domain.irs(1, pool, suffix_defaults=True)) + list(domain.irs(3 if tier == "thorough" else 2, pool, sample=250 if tier == "quick" else 2500, seed=run.seed, suffix_defaults=True))
         irs += [ir for ir in domain.irs(1, pool[:8], suffix_defaults=True, returns=(("typ", "int"), ("doc", "the result"), ("default", 5)))]
         irs += [ir for ir in domain.irs(1, pool[:4], suffix_defaults=True, returns=(("typ", "Tuple[int, int]"), ("doc", "the pair"), ("default", "```(alpha, beta)```")))]
@@ -88,7 +107,8 @@ def main(tier, write_baseline=False):
         if o["name"] in seen:
             continue
         seen.add(o["name"])
-        run.violation(o["name"], "obligation refuted by %s on path %s" % (o["backend"], " ".join(o["trace"])), solver_output={"model": o["model"], "smt2": (o["smt2"] or "")[:4000]})
+        run.violation(o["name"], "obligation refuted by %s on path %s" % (o["backend"], " ".join(o["trace"])), failing_input=(optional_prose_replay() if "optional-from-prose" in o["name"] else None) or common.model_replay("contracts.C02", o),
+                      solver_output={"model": o["model"], "smt2": (o["smt2"] or "")[:4000]})
     M.report(run, "C02/bounded", fails)
     M.flush_raise_baseline()
     common.apply_controls(run, tier)
